@@ -355,6 +355,9 @@ func fillNote(f string) string {
 	if f == "" {
 		return ""
 	}
+	if f == "drain-asc" || f == "drain-desc" {
+		return " [variant: after the history every stored key is deleted one by one, " + map[string]string{"drain-asc": "ascending", "drain-desc": "descending"}[f] + "]"
+	}
 	if f == "warm" {
 		return " [variant: read-only queries interleaved after every operation]"
 	}
